@@ -131,6 +131,10 @@ def run_scenario(spec, ctx, D=None):
         if not isinstance(P, Points):
             ctx.violation("return-type", feat, f"{kind}: returned {type(P).__name__}, not Points")
             return
+        if kind.startswith("adaptive"):
+            # the adaptive samplers hand out their own stored Points object and overwrite rows of it in
+            # the next call: judge a snapshot of what this call returned
+            P = Points(P._t.detach().clone(), P.space)
         c = {"points": P, "n": n_req, "k": k, "kind": kind, "param_cols": has_param_cols, "env": None,
              "vars": list(P.space.keys())}
         rows = len(P)
@@ -223,11 +227,21 @@ def run_scenario(spec, ctx, D=None):
         with ctx.lib(path, feature=pc):
             P = smp.sample_points(params=params)
         record(P, n_req, path + "#0", has_param_cols=True)
+        hist = [prows]
         for it in range(2):
             loss = torch.tensor(gen.random(len(P)), dtype=torch.float32)
+            # the parameter rows may change from call to call (kept points stay paired with the
+            # rows they were sampled for: the returned parameter columns say which)
+            if prows and spec["gq"] % 2 == 0:
+                moved = {kk: [[min(1.0, max(0.0, x + 0.17 * (it + 1))) for x in r] for r in v] for kk, v in prows.items()}
+                params_it = build.params_points(moved)
+                hist.append(moved)
+            else:
+                params_it = params
             with ctx.lib(path, feature=pc):
-                P = smp.sample_points(unreduced_loss=loss, params=params)
+                P = smp.sample_points(unreduced_loss=loss, params=params_it)
             record(P, n_req, path + f"#{it + 1}", has_param_cols=True)
+            out.calls[-1]["param_hist"] = list(hist)
         return out
     reps = 2 if path.startswith("static") else 1
     for it in range(reps):
@@ -268,7 +282,7 @@ def pinned_scenarios(seed):
     dep = lambda v0, a: {"k": "affine", "var": "p", "v0": list(v0), "V1": [[x] for x in a]}
     box = [[sx * 0.6 + 0.4, sy * 0.5 - 0.3, sz * 0.7 + 0.2] for sx in (-1, 1) for sy in (-1, 1) for sz in (-1, 1)]
     boxf = [[0, 1, 3], [0, 3, 2], [4, 6, 7], [4, 7, 5], [0, 4, 5], [0, 5, 1], [2, 3, 7], [2, 7, 6], [0, 2, 6], [0, 6, 4], [1, 5, 7], [1, 7, 3]]
-    disc = {"t": "circle", "var": "x", "c": C(0.3, -0.2), "r": C(1.0)}
+    disc = {"t": "circle", "var": "x", "c": dep([0.3, -0.2], [0.6, 0.4]), "r": C(1.0)}      # moves with p
     sq = {"t": "par", "var": "x", "o": C(0.1, 0.2), "c1": C(0.5, 1.6), "c2": C(1.7, 0.4)}          # clockwise, slanted
     exprs = [
         {"t": "interval", "var": "u", "lo": C(-0.4), "hi": dep([0.9], [0.5])},
@@ -303,12 +317,15 @@ def pinned_scenarios(seed):
                     continue
                 if prod and "grid" in path:
                     continue
-                for n in (37, 1):
+                for n in (37, 1, 2):
                     if n == 1 and path not in ("dom-random-n", "dom-grid-n", "S-grid-n"):
                         continue
+                    if n == 2 and path not in ("dom-random-n", "S-random-n"):
+                        continue
                     fv = rg.free_vars(EE)
-                    k2 = path.startswith("S-") and "-d" not in path
-                    prows = {"p": [[0.3], [0.9]] if k2 else [[0.6]]} if fv else ({"p": [[0.3], [0.9]]} if k2 and i % 3 == 0 else {})
+                    k2 = (path.startswith("S-") and "-d" not in path) or path == "dom-random-n"
+                    rows2 = [[0.1], [0.9], [0.5]] if n == 2 else [[0.3], [0.9]]       # n = 2 with 3 rows: more rows than points
+                    prows = {"p": rows2 if k2 else [[0.6]]} if fv else ({"p": [[0.3], [0.9]]} if k2 and i % 3 == 0 else {})
                     i += 1
                     kind = "boundary" if bd else ("depproduct" if prod and "t" in rg.free_vars(E["a"]) else "product" if prod else "interior")
                     out.append({"dom": {"E": EE, "kind": kind, "pvars": sorted(fv), "lattice": False, "far": False},
